@@ -125,6 +125,11 @@ static void run_set(int mask) {
     struct aws_allocator *parent = galloc_get(0, 0);
     memset(live, 0, sizeof(live));
     S = aws_small_block_allocator_new(parent, true);
+    /* a second allocator, created single-threaded, exists next to the shared one (it is never used): how one allocator
+     * synchronises is that allocator's own business (added after a seeded change that kept the lock strategy in file-scope
+     * function pointers; with the locks gone there is nothing for the controlled scheduler to interleave, so it is the
+     * free-running ThreadSanitizer twin of this scenario that can see it) */
+    struct aws_allocator *S2 = aws_small_block_allocator_new(parent, false);
     void *(*fn[4])(void *) = {t1, t2, t3, t4};
     pthread_t th[4];
     for (int i = 0; i < 4; ++i)
@@ -134,6 +139,7 @@ static void run_set(int mask) {
     VS_CHECK(aws_small_block_allocator_bytes_active(S) == 0, "bytes-active-at-quiescence", "everything released, bytes_active=%zu", aws_small_block_allocator_bytes_active(S));
     size_t page = aws_small_block_allocator_page_size(S);
     VS_CHECK(aws_small_block_allocator_bytes_reserved(S) <= 5 * page, "reserved-at-quiescence", "everything released, bytes_reserved=%zu exceeds one %zu-byte page per size class", aws_small_block_allocator_bytes_reserved(S), page);
+    aws_small_block_allocator_destroy(S2);
     aws_small_block_allocator_destroy(S);
     VS_CHECK(ga.live_blocks == 0, "leak", "parent balance %llu after destroy", (unsigned long long)ga.live_blocks);
 }
